@@ -34,11 +34,17 @@ build it pins (so that no parent commit whose pin contains a report-related comp
 the component's cut-off 'oldest report-related build - 1 day', whichever builds are report-related),
 and all commit times of the two repositories span less than 30 days (no branch head is 30 days older
 than a report-related build).  'All times within one day' (the first family) is the special case.
+Version numbers are non-negative integers: a fourth family repeats the first three with the releases and
+build numbers of every repository replaced, order preserved, by numbers with components equal to 0
+(release 0.9 on branch release/0.9 with tags build_N_release_0_9_success, release 0.0, build number 0,
+version 0.0.0) - the oracle reads the numbers from the tags and the pins itself and compares them as
+integers, so nothing in it depends on a number being positive.
 """
 import itertools
 import json
 import multiprocessing
 import random
+import re
 from collections import Counter
 
 from harness import ghist_mock as gm
@@ -291,7 +297,28 @@ def check(comp_hist, par_hist, text, obs_comp, obs_parent):
             not csp.contains(x, y) and not csp.contains(y, x) for x, y in itertools.combinations(sorted(set(ys)), 2)),
     }
     facts.update(time_facts(csp, psp, sorted(set(ys)), firsts))
+    facts.update(zero_facts(comp_hist, csp, psp, firsts))
     return fails, facts
+
+
+def zero_facts(comp_hist, csp, psp, firsts):
+    """reach facts about version components equal to 0 (spec side only): the versions of the
+    report-related component builds some parent build first ships, the pins of those parent builds and
+    the parent builds' own versions"""
+    shipped = {y for d in firsts.values() for new in d.values() for y in new}
+    cv = [v for y in shipped for v in build_versions(csp.commits[y])]
+    first_builds = [P for d in firsts.values() for P in d]
+    pins = [pinned_version(comp_hist, psp.commits[P]) for P in first_builds]
+    pv = [v for P in first_builds for v in build_versions(psp.commits[P])]
+    return {
+        'zero_component_major': any(v[0] == 0 for v in cv),
+        'zero_component_minor': any(v[1] == 0 for v in cv),
+        'zero_component_build': any(v[2] == 0 for v in cv),
+        'zero_component_version': any(v == (0, 0, 0) for v in cv),
+        'zero_pin': any(v is not None and v[0] == 0 and v[2] == 0 for v in pins),
+        'zero_parent_major': any(v[0] == 0 for v in pv),
+        'zero_parent_build': any(v[2] == 0 for v in pv),
+    }
 
 
 def time_facts(csp, psp, ys, firsts):
@@ -944,7 +971,92 @@ def gen_case_multi(seed, index):
             return case
 
 
+# ---- fourth family: version numbers with components equal to 0 ----
+
+ZERO_BASE = 3_000_000            # case indices >= ZERO_BASE belong to the fourth family
+# (major, minor) of a release, ascending; all but three of them have a 0 component
+ZERO_RELEASES = [(0, 0), (0, 1), (0, 9), (0, 10), (1, 0), (1, 1), (2, 0), (3, 0), (3, 1), (5, 4), (10, 0)]
+RE_RELEASE_BRANCH = re.compile(r"release/(\d+)\.(\d+)$")
+
+
+def _release_of_tag(tag):
+    """(build, major, minor) of a standard release build tag, else None"""
+    parsed = gm.parse_build_tag(tag)
+    m = parsed and gm.RE_RELEASE_IN_TAG.match(parsed[1])
+    return (parsed[0], int(m.group(1)), int(m.group(2))) if m else None
+
+
+def _draw_releases(rnd, k):
+    """k distinct releases in ascending order; three times out of four the lowest has major version 0"""
+    while k:
+        got = sorted(rnd.sample(ZERO_RELEASES, k))
+        if got[0][0] == 0 or rnd.random() < .25:
+            return got
+    return []
+
+
+def _renumber(rnd, hist):
+    """the same history with other version numbers: the releases named in its build tags are replaced,
+    order preserved, by releases drawn from ZERO_RELEASES; all build numbers are lowered by the same
+    amount (half of the time so that the lowest becomes 0); release branches are renamed, order preserved
+    (a one-branch, one-release repository gets the branch of its release: 'release/0.9' with tags
+    build_N_release_0_9_success).  -> (new history, map old (major, minor, build) -> new)"""
+    out = json.loads(json.dumps(hist))
+    tags = [r for d in out['commits'] for r in map(_release_of_tag, d.get('tags', [])) if r]
+    old_rel = sorted({(r[1], r[2]) for r in tags})
+    rel_map = dict(zip(old_rel, _draw_releases(rnd, len(old_rel))))
+    low = min([r[0] for r in tags], default=0)
+    shift = low if rnd.random() < .5 else rnd.randint(0, low)
+    vmap = {(M, m, n): rel_map[(M, m)] + (n - shift,) for n, M, m in tags}
+    for d in out['commits']:
+        new = []
+        for t in d.get('tags', []):
+            r = _release_of_tag(t)
+            new.append(gm.release_tag(r[0] - shift, *rel_map[(r[1], r[2])]) if r else t)
+        if new:
+            d['tags'] = new
+    rel_branches = sorted((b for b, _ in out['branches'] if RE_RELEASE_BRANCH.match(b)),
+                          key=c06.branch_sort_key)
+    if len(out['branches']) == 1 and len(rel_branches) == 1 and len(old_rel) == 1:
+        names = [rel_map[old_rel[0]]]
+    else:
+        names = _draw_releases(rnd, len(rel_branches))
+    bmap = {b: f"release/{M}.{m}" for b, (M, m) in zip(rel_branches, names)}
+    out['branches'] = [[bmap.get(b, b), h] for b, h in out['branches']]
+    return out, vmap
+
+
+def gen_case_zero(seed, index):
+    """a case of the first three families (1/3 each) with the versions of every repository renumbered by
+    _renumber and the owner's pins rewritten accordingly: nothing but the numbers (and the names of the
+    release branches) changes, every order between versions and between branches is preserved"""
+    rnd = random.Random(seed * 7_000_003 + ZERO_BASE * 31 + index)
+    while True:
+        fam = rnd.choice([0, SPREAD_BASE, MULTI_BASE])
+        base = gen_case(seed, fam + 500_000 + rnd.randrange(400_000))     # indices no other family uses
+        comps = base['libs'] if 'libs' in base else [base['lib']]
+        new_comps, vmaps = [], {}
+        for comp in comps:
+            nc, vmaps[comp['name']] = _renumber(rnd, comp)
+            new_comps.append(nc)
+        par, _ = _renumber(rnd, base['app'])
+        for d in par['commits']:
+            dep = json.loads(d['files']['DEPENDS'])
+            for name in dep:
+                dep[name] = '.'.join(str(x) for x in vmaps[name][tuple(int(x) for x in dep[name].split('.'))])
+            d['files']['DEPENDS'] = json.dumps(dep)
+        case = dict(base, app=par)
+        if 'libs' in base:
+            case['libs'] = new_comps
+        else:
+            case['lib'] = new_comps[0]
+        if preconditions_hold(case):
+            return case
+
+
 def gen_case(seed, index):
+    if index >= ZERO_BASE:
+        return gen_case_zero(seed, index - ZERO_BASE)
     if index >= MULTI_BASE:
         return gen_case_multi(seed, index - MULTI_BASE)
     if index >= SPREAD_BASE:
@@ -1026,9 +1138,14 @@ def n_multi(tier):
     return 3200 if tier == 'quick' else 32000
 
 
+def n_zero(tier):
+    return 1600 if tier == 'quick' else 24000
+
+
 def case_indices(tier):
     return (list(range(n_histories(tier))) + [SPREAD_BASE + i for i in range(n_spread(tier))]
-            + [MULTI_BASE + i for i in range(n_multi(tier))])
+            + [MULTI_BASE + i for i in range(n_multi(tier))]
+            + [ZERO_BASE + i for i in range(n_zero(tier))])
 
 
 HBLOCK = 50
@@ -1067,7 +1184,18 @@ REACH = ['pin moving across >= 2 report-related component builds',
          'build of the branch had it',
          'the same between two identically shaped component histories (coinciding internal numbering), the '
          'moved pin arriving at the position at which the other pin stays',
-         'owner pinning >= 2 components: one build first ships report-related builds of two components']
+         'owner pinning >= 2 components: one build first ships report-related builds of two components',
+         'report-related component build with major version 0 (tags build_N_release_0_x_success) first shipped '
+         'by a parent build',
+         'report-related component build with minor version 0 first shipped by a parent build',
+         'report-related component build with build number 0 first shipped by a parent build',
+         'report-related component build 0.0.0 first shipped by a parent build',
+         'first-shipping parent build whose pin has major version 0 and build number 0',
+         'first-shipping parent build whose own version has major version 0',
+         'first-shipping parent build whose own build number is 0']
+ZERO_REACH = [(13, 'zero_component_major'), (14, 'zero_component_minor'), (15, 'zero_component_build'),
+              (16, 'zero_component_version'), (17, 'zero_pin'), (18, 'zero_parent_major'),
+              (19, 'zero_parent_build')]
 
 
 def run(b):
@@ -1112,7 +1240,7 @@ def run(b):
             continue
         facts, fails = hist_res[i]
         case = gen_case(b.seed, i)
-        if i >= MULTI_BASE:
+        if 'libs' in case:
             b.case(case, nontrivial=facts['distinct_pins'] >= 2 and facts['components_with_firsts'] >= 2)
             if facts['one_pin_moves']:
                 b.hit(REACH[10])
@@ -1138,6 +1266,9 @@ def run(b):
             b.hit(REACH[8])
         if facts['span_days'] >= 3:
             b.hit(REACH[9])
+        for k, name in ZERO_REACH:
+            if facts[name]:
+                b.hit(REACH[k])
         for clause, ksuf, txt in fails:
             key = (clause, ksuf)
             size = len(json.dumps(case))
@@ -1149,7 +1280,13 @@ def run(b):
     b.notes['history_cases'] = n_histories(b.tier)
     b.notes['spread_cases'] = n_spread(b.tier)
     sp = [f for i, (f, _) in hist_res.items() if SPREAD_BASE <= i < MULTI_BASE]
-    mu = [f for i, (f, _) in hist_res.items() if i >= MULTI_BASE]
+    mu = [f for i, (f, _) in hist_res.items() if MULTI_BASE <= i < ZERO_BASE]
+    ze = [f for i, (f, _) in hist_res.items() if i >= ZERO_BASE]
+    b.notes['zero_cases'] = n_zero(b.tier)
+    b.notes['zero_nontrivial'] = sum(
+        1 for f in ze if f['distinct_pins'] >= 2 and f.get('components_with_firsts', 2) >= 2)
+    for _, name in ZERO_REACH:
+        b.notes[name] = sum(1 for f in ze if f[name])
     b.notes['multi_cases'] = n_multi(b.tier)
     b.notes['multi_three_components'] = sum(1 for f in mu if f['components'] >= 3)
     b.notes['multi_nontrivial'] = sum(1 for f in mu if f['distinct_pins'] >= 2 and f['components_with_firsts'] >= 2)
